@@ -136,6 +136,47 @@ def _hyp_run(mod, tier, seed, examples, col, deadline_s=None):
     return _hyp_run_one(mod, mod.strategy(tier), seed, examples, col, deadline_s)
 
 
+class CaseTimeout(BaseException):
+    """a single case exceeded the per-case wall clock guard (inconclusive, never a violation)"""
+
+
+CASE_LIMIT_S = int(os.environ.get("VERIF_CASE_LIMIT_S", "600"))
+
+
+def guard_resources():
+    """A runaway library (e.g. a row loop that never terminates) must not take the machine down: address space
+    is capped so that it surfaces as a deterministic MemoryError inside the case (an exception escaping from the
+    code under test, reported like any other), not as a frozen check."""
+    import resource
+    gb = float(os.environ.get("VERIF_MEM_GB", "8"))
+    try:
+        soft, hard = resource.getrlimit(resource.RLIMIT_AS)
+        cap = int(gb * 1024 ** 3)
+        if hard != resource.RLIM_INFINITY:
+            cap = min(cap, hard)
+        resource.setrlimit(resource.RLIMIT_AS, (cap, hard))
+    except Exception:
+        pass
+
+
+def _guarded(mod, case):
+    """check_case under a wall clock guard (main thread only)"""
+    import signal
+    import threading
+    if threading.current_thread() is not threading.main_thread() or not hasattr(signal, "SIGALRM"):
+        return mod.check_case(case)
+
+    def onalarm(signum, frame):
+        raise CaseTimeout()
+    old = signal.signal(signal.SIGALRM, onalarm)
+    signal.alarm(CASE_LIMIT_S)
+    try:
+        return mod.check_case(case)
+    finally:
+        signal.alarm(0)
+        signal.signal(signal.SIGALRM, old)
+
+
 def _hyp_run_one(mod, strategy, seed, examples, col, deadline_s=None):
     import hypothesis
     from hypothesis import given, settings, HealthCheck, Phase
@@ -151,16 +192,26 @@ def _hyp_run_one(mod, strategy, seed, examples, col, deadline_s=None):
         if t_end is not None and time.time() > t_end:
             state["budget_hit"] = True
             return
-        res = mod.check_case(case)
+        try:
+            res = _guarded(mod, case)
+        except CaseTimeout:
+            # inconclusive: remember the case, stop generating (the run ends with a harness error, exit 2)
+            col.extra_cov.setdefault("timed_out_cases", []).append(case)
+            state["budget_hit"] = True
+            state["timeout"] = True
+            return
         col.record(case, res)
 
     prop()
+    if state.get("timeout"):
+        col.extra_cov["case_timeout_s"] = CASE_LIMIT_S
     return state["budget_hit"]
 
 
 def _shard(args):
     pid, tier, seed, examples, deadline_s = args
     try:
+        guard_resources()
         mod = load_module(pid)
         col = Collector()
         hit = _hyp_run(mod, tier, seed, examples, col, deadline_s)
@@ -193,6 +244,7 @@ def match_known(known, pid, bucket):
 
 def run_check(pid, tier, seed):
     t0 = time.time()
+    guard_resources()
     mod = load_module(pid)
     bud = mod.budget(tier)
     col = Collector()
@@ -313,6 +365,10 @@ def finish(pid, mod, tier, seed, col, t0, budget_hit=False):
         # a reproduced violation stands on its own replay file; distribution floors only
         # guard against vacuous *passes*
         return 1
+    if col.extra_cov.get("timed_out_cases"):
+        print("HARNESS-ERROR: a case exceeded the %d s per-case guard (inconclusive; case kept in the evidence "
+              "under coverage.timed_out_cases)" % CASE_LIMIT_S)
+        return 2
     if harness_err:
         print("HARNESS-ERROR: " + harness_err)
         return 2
